@@ -371,14 +371,14 @@ func RunCheck(chk *Check, thorough bool) int {
 	if depth <= 0 {
 		depth = 1
 	}
-	if chk.Setup != nil {
-		// expansion must not need the setup, but bodies may touch it before the first Choose
-		if err := chk.Setup(thorough, scratch); err != nil {
-			fmt.Fprintln(os.Stderr, "setup:", err)
-			return 2
-		}
+	// expansion runs bodies only up to ShardDepth choices; it must not need Setup (which may redirect process-global state)
+	savedOut, savedErr := os.Stdout, os.Stderr
+	if devnull, err := os.OpenFile(os.DevNull, os.O_WRONLY, 0); err == nil {
+		// leaves shorter than the expansion depth run to completion here; whatever the library prints is not ours
+		os.Stdout, os.Stderr = devnull, devnull
 	}
 	items := ex.Expand(depth)
+	os.Stdout, os.Stderr = savedOut, savedErr
 	nw := runtime.NumCPU()
 	if nw > 16 {
 		nw = 16
